@@ -12,34 +12,89 @@ Record Rcore (w : world) (sid : nat) (c : cstate) : Prop := mkR {
   r_init : c_inw c = true -> w_init w = true
 }.
 Definition R (w : world) (sid : nat) (c : cstate) : Prop :=
-  Rcore w sid c /\ qstat sid (w_queue w) = q_of (c_ph c).
+  Rcore w sid c /\ qfilter sid (w_queue w) = q_of sid c.
+
+(* structural invariant of the one-child automaton: before the report there is no returncode and no late call *)
+Definition cwf (c : cstate) : Prop :=
+  match c_ph c with
+  | PhReported _ => True
+  | _ => s_rc (c_sub c) = None /\ c_late c = []
+  end.
 
 Definition probe_ok (c : cstate) : Prop := c_inw c = true \/ forall st, c_ph c <> PhZombie st.
 
 Lemma ctry_sub c : c_sub (ctry c) = c_sub c.
 Proof. unfold ctry. destruct (c_ph c); try reflexivity. destruct (c_inw c); reflexivity. Qed.
 Lemma ctry_idem c : ctry (ctry c) = ctry c.
-Proof. unfold ctry. destruct c as [s [|st|st|st] [|] l]; reflexivity. Qed.
+Proof. unfold ctry. destruct c as [s [|st|st|st] [|] l lt]; reflexivity. Qed.
 Lemma ctry_probe_ok c : probe_ok c -> probe_ok (ctry c).
 Proof.
-  unfold probe_ok, ctry. destruct c as [s [|st|st|st] [|] l]; simpl; intros [H|H];
+  unfold probe_ok, ctry. destruct c as [s [|st|st|st] [|] l lt]; simpl; intros [H|H];
     try discriminate; try (left; reflexivity); try (right; intros st'; discriminate).
   exfalso. exact (H st eq_refl).
 Qed.
+Lemma ctry_cwf c : cwf c -> cwf (ctry c).
+Proof. unfold cwf, ctry. destruct c as [s [|st|st|st] [|] l lt]; simpl; auto. Qed.
+
+Lemma run_lates_pid sid l : forall s calls, s_pid (fst (run_lates sid s calls l)) = s_pid s.
+Proof.
+  induction l as [|[cb rc] l IH]; intros s calls; simpl; [reflexivity|].
+  pose proof (invoke_pid sid s cb rc) as P. destruct (invoke sid s cb rc) as [s3 evs]. simpl in P.
+  rewrite IH. exact P.
+Qed.
+
+Lemma crun_late_ph sid c : c_ph (crun_late sid c) = c_ph c /\ c_late (crun_late sid c) = [] /\ c_inw (crun_late sid c) = c_inw c.
+Proof. unfold crun_late. destruct (run_lates sid (c_sub c) (c_calls c) (c_late c)). repeat split. Qed.
+
+Lemma creport_ph sid st c : c_ph (creport sid st c) = PhReported st /\ c_late (creport sid st c) = c_late c /\ c_inw (creport sid st c) = c_inw c.
+Proof.
+  unfold creport. destruct (decode st) as [rc|]; [|repeat split].
+  destruct (s_cb (c_sub c)) as [cb|]; [|repeat split].
+  destruct (invoke sid _ cb rc) as [s3 evs]. repeat split.
+Qed.
+
+Lemma cstep_cwf sid c e : cwf c -> cwf (cstep sid c e).
+Proof.
+  intros W. destruct e as [q|q st| |s l|s l re|]; cbn [cstep].
+  - exact W.
+  - destruct (q =? s_pid (c_sub c)); [|exact W]. unfold cwf in *. destruct c as [sb [|st'|st'|st'] inw calls lt]; simpl in *; auto.
+  - destruct (c_inw c); [apply ctry_cwf|]; exact W.
+  - destruct (Nat.eqb s sid); [|exact W]. unfold creg. destruct (s_rc (c_sub c)) eqn:Rc.
+    + unfold cwf in *. simpl. destruct (c_ph c); try exact I; destruct W; congruence.
+    + apply ctry_cwf. unfold cwf in *. simpl. destruct (c_ph c); try exact I; (split; [exact Rc|apply W]).
+  - destruct (Nat.eqb s sid); [|exact W]. unfold creg. destruct (s_rc (c_sub c)) eqn:Rc.
+    + unfold cwf in *. simpl. destruct (c_ph c); try exact I; destruct W; congruence.
+    + apply ctry_cwf. unfold cwf in *. simpl. destruct (c_ph c); try exact I; (split; [exact Rc|apply W]).
+  - unfold cloop. destruct (c_ph c) as [|st|st|st] eqn:P.
+    + unfold cwf in *. rewrite P in W. destruct W as [W1 W2].
+      unfold crun_late. rewrite W2. simpl. rewrite P. split; [exact W1|reflexivity].
+    + unfold cwf in *. rewrite P in W. destruct W as [W1 W2].
+      unfold crun_late. rewrite W2. simpl. rewrite P. split; [exact W1|reflexivity].
+    + unfold cwf. destruct (crun_late_ph sid (creport sid st c)) as [A _]. rewrite A.
+      destruct (creport_ph sid st c) as [B _]. rewrite B. exact I.
+    + unfold cwf. destruct (crun_late_ph sid c) as [A _]. rewrite A, P. exact I.
+Qed.
+
+Lemma fold_cwf sid r : forall c, cwf c -> cwf (fold_left (cstep sid) r c).
+Proof. induction r as [|e r IH]; intros c W; simpl; [exact W|]. apply IH, cstep_cwf, W. Qed.
+
+Lemma cinit_cwf p : cwf (cinit p).
+Proof. split; reflexivity. Qed.
 
 (* ---------- _try_cleanup_process on the object's own pid / on another pid ---------- *)
-Lemma try_self w sid c : R w sid c -> probe_ok c -> R (try_cleanup w (s_pid (c_sub c))) sid (ctry c).
+Lemma try_self w sid c : R w sid c -> cwf c -> probe_ok c -> R (try_cleanup w (s_pid (c_sub c))) sid (ctry c).
 Proof.
-  intros [[Hs Hk Hw Hc Hi] Hq] P. unfold try_cleanup, ctry. rewrite Hk.
-  destruct (c_ph c) as [|st|st|st] eqn:E; simpl; try (split; [constructor|]; rewrite ?E; assumption).
+  intros Rw Wf P. pose proof Rw as [[Hs Hk Hw Hc Hi] Hq]. unfold try_cleanup, ctry. rewrite Hk.
+  destruct (c_ph c) as [|st|st|st] eqn:E; simpl; try exact Rw.
   destruct P as [P|P]; [|exfalso; exact (P _ E)].
+  unfold cwf in Wf. rewrite E in Wf. destruct Wf as [_ Wl].
   rewrite P in Hw |- *. rewrite Hw. split; [constructor|]; simpl.
   - exact Hs.
   - apply a_find_set_same.
   - apply a_find_remove_same.
   - exact Hc.
   - discriminate.
-  - rewrite qstat_app, Hq. unfold qstat. simpl. rewrite Nat.eqb_refl. reflexivity.
+  - rewrite qfilter_app, Hq. unfold q_of, qfilter. simpl. rewrite E, Wl, Nat.eqb_refl. reflexivity.
 Qed.
 
 Lemma try_other w sid c q : G w -> R w sid c -> q <> s_pid (c_sub c) -> R (try_cleanup w q) sid c.
@@ -49,7 +104,7 @@ Proof.
   destruct (a_find q (w_waiting w)) as [s'|] eqn:W; (split; [constructor|]); simpl; try assumption.
   - rewrite a_find_set_other by exact N. exact Hk.
   - rewrite a_find_remove_other by exact N. exact Hw.
-  - rewrite qstat_app, Hq. unfold qstat. simpl.
+  - rewrite qfilter_app, Hq. unfold qfilter at 1. simpl.
     destruct (Nat.eqb s' sid) eqn:E; [|apply app_nil_r].
     apply Nat.eqb_eq in E. subst s'. apply a_find_in in W. destruct (g_wait w Gw q sid W) as [sb [H1 H2]].
     rewrite Hs in H1. injection H1 as <-. congruence.
@@ -57,32 +112,32 @@ Proof.
   - rewrite calls_app, Hc. simpl. apply app_nil_r.
 Qed.
 
-Lemma cleanup_fold sid ps : forall w c, G w -> R w sid c -> (In (s_pid (c_sub c)) ps -> probe_ok c) ->
+Lemma cleanup_fold sid ps : forall w c, G w -> R w sid c -> cwf c -> (In (s_pid (c_sub c)) ps -> probe_ok c) ->
   R (fold_left try_cleanup ps w) sid (if zmem (s_pid (c_sub c)) ps then ctry c else c).
 Proof.
-  induction ps as [|q ps IH]; intros w c Gw Rw P; simpl; [exact Rw|].
+  induction ps as [|q ps IH]; intros w c Gw Rw Wf P; simpl; [exact Rw|].
   destruct (Z.eq_dec (s_pid (c_sub c)) q) as [<-|N].
   - rewrite Z.eqb_refl. simpl.
     assert (Pc : probe_ok c) by (apply P; left; reflexivity).
-    specialize (IH (try_cleanup w (s_pid (c_sub c))) (ctry c) (try_G _ _ Gw) (try_self w sid c Rw Pc)
-                   (fun _ => ctry_probe_ok c Pc)).
+    specialize (IH (try_cleanup w (s_pid (c_sub c))) (ctry c) (try_G _ _ Gw) (try_self w sid c Rw Wf Pc)
+                   (ctry_cwf c Wf) (fun _ => ctry_probe_ok c Pc)).
     rewrite ctry_sub, ctry_idem in IH. destruct (zmem (s_pid (c_sub c)) ps); exact IH.
   - assert (E : (s_pid (c_sub c) =? q) = false) by (apply Z.eqb_neq; exact N). rewrite E. simpl.
-    apply IH; [apply try_G; exact Gw|apply try_other; [exact Gw|exact Rw|congruence]|].
+    apply IH; [apply try_G; exact Gw|apply try_other; [exact Gw|exact Rw|congruence]|exact Wf|].
     intros H. apply P. right; exact H.
 Qed.
 
-Lemma sigchld_R w sid c : G w -> R w sid c ->
+Lemma sigchld_R w sid c : G w -> R w sid c -> cwf c ->
   R (if w_init w then cleanup w else w) sid (if c_inw c then ctry c else c).
 Proof.
-  intros Gw Rw. pose proof Rw as [[Hs Hk Hw Hc Hi] Hq].
+  intros Gw Rw Wf. pose proof Rw as [[Hs Hk Hw Hc Hi] Hq].
   destruct (w_init w) eqn:I.
   - unfold cleanup.
     assert (Hin : In (s_pid (c_sub c)) (map fst (w_waiting w)) <-> c_inw c = true).
     { destruct (c_inw c) eqn:E.
       - split; [reflexivity|]. intros _. apply a_find_in in Hw. apply (in_map fst) in Hw. exact Hw.
       - apply a_find_none_keys in Hw. split; [contradiction|discriminate]. }
-    pose proof (cleanup_fold sid (map fst (w_waiting w)) w c Gw Rw (fun H => or_introl (proj1 Hin H))) as F.
+    pose proof (cleanup_fold sid (map fst (w_waiting w)) w c Gw Rw Wf (fun H => or_introl (proj1 Hin H))) as F.
     destruct (c_inw c) eqn:E.
     + assert (Z : zmem (s_pid (c_sub c)) (map fst (w_waiting w)) = true) by (apply zmem_in, Hin; reflexivity).
       rewrite Z in F. exact F.
@@ -92,37 +147,53 @@ Proof.
 Qed.
 
 (* ---------- set_exit_callback / wait_for_exit ---------- *)
-Lemma reg_self w sid c mk : keeps_pid mk -> R w sid c -> R (register w sid mk) sid (creg mk c).
+Lemma reg_self w sid c prep cbof : good_prep prep -> R w sid c -> cwf c ->
+  R (register w sid prep cbof) sid (creg prep cbof c).
 Proof.
-  intros K Rw. pose proof Rw as [[Hs Hk Hw Hc Hi] Hq].
-  rewrite (register_eq w sid mk (c_sub c) K Hs). unfold creg.
-  set (c1 := mkC (mk (c_sub c)) (c_ph c) true (c_calls c)).
-  assert (E : s_pid (c_sub c) = s_pid (c_sub c1)) by (symmetry; apply K). rewrite E.
-  apply try_self; [|left; reflexivity].
-  split; [constructor|]; simpl.
-  - apply nth_upd_same. exact (nth_error_lt _ _ _ Hs).
-  - rewrite K. exact Hk.
-  - apply a_find_set_same.
-  - exact Hc.
-  - reflexivity.
-  - exact Hq.
+  intros K Rw Wf. pose proof Rw as [[Hs Hk Hw Hc Hi] Hq].
+  destruct (K (c_sub c)) as [Kp [Kc Kr]]. unfold creg.
+  destruct (s_rc (c_sub c)) as [rc|] eqn:Rc.
+  - rewrite (register_late_eq w sid prep cbof (c_sub c) rc Hs Rc). unfold reg_late.
+    split; [constructor|]; simpl; rewrite ?Kp; try assumption.
+    + apply nth_upd_same. exact (nth_error_lt _ _ _ Hs).
+    + rewrite qfilter_app, Hq. unfold q_of, qfilter. simpl. rewrite Nat.eqb_refl, map_app, app_assoc. reflexivity.
+  - rewrite (register_eq w sid prep cbof (c_sub c) K Hs Rc).
+    set (c1 := mkC (set_cb (cbof (c_sub c)) (prep (c_sub c))) (c_ph c) true (c_calls c) (c_late c)).
+    assert (E : s_pid (c_sub c) = s_pid (c_sub c1)) by (symmetry; exact Kp). rewrite E.
+    apply try_self; [| |left; reflexivity].
+    + split; [constructor|]; simpl.
+      * apply nth_upd_same. exact (nth_error_lt _ _ _ Hs).
+      * rewrite Kp. exact Hk.
+      * apply a_find_set_same.
+      * exact Hc.
+      * reflexivity.
+      * exact Hq.
+    + unfold cwf in *. simpl. destruct (c_ph c); try exact I; (split; [congruence|apply Wf]).
 Qed.
 
-Lemma reg_other w sid sid' c mk : keeps_pid mk -> G w -> R w sid c -> sid' <> sid -> R (register w sid' mk) sid c.
+Lemma reg_other w sid sid' c prep cbof : good_prep prep -> G w -> R w sid c -> sid' <> sid ->
+  R (register w sid' prep cbof) sid c.
 Proof.
   intros K Gw Rw N. pose proof Rw as [[Hs Hk Hw Hc Hi] Hq].
   destruct (nth_error (w_subs w) sid') as [s'|] eqn:Hs'; [|unfold register; rewrite Hs'; exact Rw].
-  rewrite (register_eq w sid' mk s' K Hs').
-  assert (NP : s_pid s' <> s_pid (c_sub c)).
-  { intros E. apply N. exact (nodup_map_nth s_pid _ _ _ _ _ (g_pids w Gw) Hs' Hs E). }
-  apply try_other; [apply (reg_mid_G w sid' s'); [exact Gw|exact Hs'|apply K]| |exact NP].
-  split; [constructor|]; simpl.
-  - rewrite nth_upd_other by exact N. exact Hs.
-  - exact Hk.
-  - rewrite K, a_find_set_other by exact NP. exact Hw.
-  - exact Hc.
-  - reflexivity.
-  - exact Hq.
+  destruct (K s') as [Kp [Kc Kr]].
+  destruct (s_rc s') as [rc|] eqn:Rc.
+  - rewrite (register_late_eq w sid' prep cbof s' rc Hs' Rc). unfold reg_late.
+    split; [constructor|]; simpl; try assumption.
+    + rewrite nth_upd_other by exact N. exact Hs.
+    + rewrite qfilter_app, Hq. unfold qfilter at 1. simpl.
+      assert (Nat.eqb sid' sid = false) as -> by (apply Nat.eqb_neq; exact N). apply app_nil_r.
+  - rewrite (register_eq w sid' prep cbof s' K Hs' Rc).
+    assert (NP : s_pid s' <> s_pid (c_sub c)).
+    { intros E. apply N. exact (nodup_map_nth s_pid _ _ _ _ _ (g_pids w Gw) Hs' Hs E). }
+    apply try_other; [apply (reg_mid_G w sid' s'); [exact Gw|exact Hs'|simpl; exact Kp]| |exact NP].
+    split; [constructor|]; simpl.
+    + rewrite nth_upd_other by exact N. exact Hs.
+    + exact Hk.
+    + rewrite Kp, a_find_set_other by exact NP. exact Hw.
+    + exact Hc.
+    + reflexivity.
+    + exact Hq.
 Qed.
 
 (* ---------- the IOLoop turn ---------- *)
@@ -142,6 +213,19 @@ Proof.
     + rewrite nth_upd_other by exact N. exact Hs.
     + rewrite calls_app, Hc, Q. apply app_nil_r.
   - constructor; simpl; try assumption. rewrite nth_upd_other by exact N. exact Hs.
+Qed.
+
+Lemma late_other w sid c s' cb rc : Rcore w sid c -> s' <> sid -> Rcore (late_call w s' cb rc) sid c.
+Proof.
+  intros [Hs Hk Hw Hc Hi] N. unfold late_call.
+  destruct (nth_error (w_subs w) s') as [s|] eqn:Hs'.
+  2:{ constructor; simpl; try assumption. rewrite calls_app, Hc. simpl.
+      assert (Nat.eqb s' sid = false) as -> by (apply Nat.eqb_neq; exact N). apply app_nil_r. }
+  pose proof (invoke_calls_other sid s' s cb rc N) as Q.
+  destruct (invoke s' s cb rc) as [s3 evs]. simpl in Q.
+  constructor; simpl; try assumption.
+  - rewrite nth_upd_other by exact N. exact Hs.
+  - rewrite calls_app, Hc, Q. apply app_nil_r.
 Qed.
 
 Lemma creport_sub_pid sid st c : s_pid (c_sub (creport sid st c)) = s_pid (c_sub c).
@@ -170,64 +254,87 @@ Proof.
     rewrite calls_app, Hc. simpl. rewrite Nat.eqb_refl. reflexivity.
 Qed.
 
-Definition cloop (sid : nat) (c : cstate) : cstate :=
-  match c_ph c with PhQueued st => creport sid st c | _ => c end.
-
-Lemma creport_ph sid st c : c_ph (creport sid st c) = PhReported st.
+Lemma late_self w sid c cb rc lt : Rcore w sid c ->
+  Rcore (late_call w sid cb rc) sid
+        (mkC (fst (invoke sid (c_sub c) cb rc)) (c_ph c) (c_inw c) (c_calls c ++ snd (invoke sid (c_sub c) cb rc)) lt).
 Proof.
-  unfold creport. destruct (decode st) as [rc|]; [|reflexivity].
-  destruct (s_cb (c_sub c)) as [cb|]; [|reflexivity].
-  destruct (invoke sid _ cb rc) as [s3 evs]. reflexivity.
+  intros [Hs Hk Hw Hc Hi]. unfold late_call. rewrite Hs.
+  pose proof (invoke_pid sid (c_sub c) cb rc) as P. pose proof (invoke_calls_self sid (c_sub c) cb rc) as Q.
+  destruct (invoke sid (c_sub c) cb rc) as [s3 evs]. simpl in *.
+  constructor; simpl; rewrite ?P; try assumption.
+  - apply nth_upd_same. exact (nth_error_lt _ _ _ Hs).
+  - rewrite calls_app, Hc, Q. reflexivity.
 Qed.
 
+Lemma crun_late_step sid s ph inw calls cb rc lt :
+  crun_late sid (mkC s ph inw calls ((cb, rc) :: lt)) =
+  crun_late sid (mkC (fst (invoke sid s cb rc)) ph inw (calls ++ snd (invoke sid s cb rc)) lt).
+Proof. unfold crun_late. simpl. destruct (invoke sid s cb rc) as [s3 evs]. reflexivity. Qed.
+
 Lemma loop_fold sid q : forall w c, G w -> Rcore w sid c ->
-  (forall s st, In (s, st) q -> (s < length (w_subs w))%nat) ->
-  qstat sid q = q_of (c_ph c) ->
-  G (fold_left set_rc q w) /\ Rcore (fold_left set_rc q w) sid (cloop sid c) /\
-  w_queue (fold_left set_rc q w) = w_queue w /\ length (w_subs (fold_left set_rc q w)) = length (w_subs w).
+  (forall x, In x q -> (q_sid x < length (w_subs w))%nat) ->
+  qfilter sid q = q_of sid c ->
+  Rcore (fold_left run_item q w) sid (cloop sid c).
 Proof.
-  induction q as [|[s' st'] q IH]; intros w c Gw Rw V Q; simpl.
-  - split; [exact Gw|]. split; [|split; reflexivity]. unfold cloop. destruct (c_ph c); try exact Rw. discriminate Q.
-  - assert (L : (s' < length (w_subs w))%nat) by (apply (V s' st'); left; reflexivity).
-    assert (V' : forall s st, In (s, st) q -> (s < length (w_subs (set_rc w (s', st'))))%nat).
-    { intros s st H. rewrite set_rc_len. apply (V s st). right; exact H. }
-    assert (G' := set_rc_G w s' st' Gw L).
-    unfold qstat in Q. simpl in Q. destruct (Nat.eqb s' sid) eqn:E.
-    + apply Nat.eqb_eq in E. subst s'. simpl in Q.
-      destruct (c_ph c) as [|st|st|st] eqn:P; simpl in Q; try discriminate.
-      injection Q as -> Q.
-      destruct (IH (set_rc w (sid, st)) (creport sid st c) G' (setrc_self w sid c st Rw P) V') as [A [B [C D]]].
-      { rewrite creport_ph. exact Q. }
-      split; [exact A|]. split; [|split; [exact (eq_trans C (set_rc_queue _ _))|exact (eq_trans D (set_rc_len _ _))]].
-      unfold cloop in B |- *. rewrite creport_ph in B. rewrite P. exact B.
-    + apply Nat.eqb_neq in E.
-      destruct (IH (set_rc w (s', st')) c G' (setrc_other w sid c s' st' Rw E) V' Q) as [A [B [C D]]].
-      split; [exact A|]. split; [exact B|]. split; [exact (eq_trans C (set_rc_queue _ _))|exact (eq_trans D (set_rc_len _ _))].
+  induction q as [|x q IH]; intros w c Gw Rw V Q; cbn [fold_left].
+  - unfold q_of in Q. unfold cloop. destruct c as [s ph inw calls lt]. simpl in *.
+    destruct ph; simpl in Q; try discriminate;
+      (destruct lt; [|discriminate]); unfold crun_late; simpl; exact Rw.
+  - assert (L : (q_sid x < length (w_subs w))%nat) by (apply V; left; reflexivity).
+    assert (V' : forall x', In x' q -> (q_sid x' < length (w_subs (run_item w x)))%nat).
+    { intros x' H. rewrite run_item_len. apply V. right; exact H. }
+    assert (G' := run_item_G w x Gw L).
+    unfold qfilter in Q. cbn [filter] in Q. destruct (Nat.eqb (q_sid x) sid) eqn:E.
+    + apply Nat.eqb_eq in E. fold (qfilter sid q) in Q.
+      destruct c as [s ph inw calls lt]. unfold q_of in Q. cbn [c_ph c_late] in Q.
+      destruct ph as [|st|st|st]; cbn [app] in Q.
+      1,2,4: (destruct lt as [|[cb rc] lt]; [discriminate|]; cbn [map fst snd] in Q; injection Q as -> Q;
+              cbn [run_item]; unfold cloop; cbn [c_ph]; rewrite crun_late_step;
+              lazymatch goal with |- Rcore _ _ (crun_late _ ?c') => change (crun_late sid c') with (cloop sid c') end;
+              apply (IH _ _ G');
+              [exact (late_self w sid _ cb rc lt Rw)|exact V'|exact Q]).
+      injection Q as -> Q. cbn [run_item].
+      destruct (creport_ph sid st (mkC s (PhQueued st) inw calls lt)) as [P1 [P2 _]].
+      pose proof (IH _ (creport sid st (mkC s (PhQueued st) inw calls lt)) G'
+                     (setrc_self w sid _ st Rw eq_refl) V') as H.
+      unfold cloop in H |- *. rewrite P1 in H. cbn [c_ph]. apply H.
+      unfold q_of. rewrite P1, P2. exact Q.
+    + apply Nat.eqb_neq in E. fold (qfilter sid q) in Q.
+      apply (IH _ c G'); [|exact V'|exact Q].
+      destruct x as [s' st'|s' cb rc]; cbn [run_item q_sid] in *;
+        [apply setrc_other|apply late_other]; assumption.
+Qed.
+
+Lemma cloop_q sid c : q_of sid (cloop sid c) = [].
+Proof.
+  unfold cloop, q_of.
+  set (c1 := match c_ph c with PhQueued st => creport sid st c | _ => c end).
+  destruct (crun_late_ph sid c1) as [A [B _]]. rewrite A, B.
+  assert (N : forall st, c_ph c1 <> PhQueued st).
+  { unfold c1. destruct (c_ph c) eqn:P; try (rewrite P; discriminate).
+    destruct (creport_ph sid st c) as [X _]. rewrite X. discriminate. }
+  destruct (c_ph c1) eqn:P; try reflexivity. exfalso. exact (N _ eq_refl).
 Qed.
 
 Lemma run_loop_G w : G w -> G (run_loop w) /\ length (w_subs (run_loop w)) = length (w_subs w).
 Proof.
   intros Gw. unfold run_loop.
   set (w1 := mkW (w_kern w) (w_subs w) (w_waiting w) [] (w_init w) (w_log w)).
-  assert (G1 : G w1) by (destruct Gw; constructor; simpl; auto; intros s st []).
-  revert G1. generalize (g_queue w Gw). change (w_subs w) with (w_subs w1). generalize w1.
-  induction (w_queue w) as [|[s st] q IH]; intros w2 V G2; simpl; [split; [exact G2|reflexivity]|].
-  assert (L : (s < length (w_subs w2))%nat) by (apply (V s st); left; reflexivity).
-  destruct (IH (set_rc w2 (s, st))) as [A B].
-  - intros s' st' H. rewrite set_rc_len. apply (V s' st'). right; exact H.
-  - apply set_rc_G; assumption.
-  - split; [exact A|]. exact (eq_trans B (set_rc_len _ _)).
+  assert (G1 : G w1) by (destruct Gw; constructor; simpl; auto; intros x []).
+  destruct (fold_items_G (w_queue w) w1 G1 (g_queue w Gw)) as [A [B _]]. split; assumption.
 Qed.
+
+Lemma fold_items_queue q : forall w, w_queue (fold_left run_item q w) = w_queue w.
+Proof. induction q as [|x q IH]; intros w; cbn [fold_left]; [reflexivity|]. rewrite IH. apply run_item_queue. Qed.
 
 Lemma run_loop_R w sid c : G w -> R w sid c -> R (run_loop w) sid (cloop sid c).
 Proof.
   intros Gw [Rw Q]. unfold run_loop.
   set (w1 := mkW (w_kern w) (w_subs w) (w_waiting w) [] (w_init w) (w_log w)).
-  assert (G1 : G w1) by (destruct Gw; constructor; simpl; auto; intros s st []).
+  assert (G1 : G w1) by (destruct Gw; constructor; simpl; auto; intros x []).
   assert (R1 : Rcore w1 sid c) by (destruct Rw; constructor; assumption).
-  destruct (loop_fold sid (w_queue w) w1 c G1 R1 (g_queue w Gw) Q) as [A [B [C D]]].
-  split; [exact B|]. rewrite C. simpl. unfold cloop.
-  destruct (c_ph c) eqn:P; try (rewrite P; reflexivity). rewrite creport_ph. reflexivity.
+  split; [exact (loop_fold sid (w_queue w) w1 c G1 R1 (g_queue w Gw) Q)|].
+  rewrite fold_items_queue, cloop_q. reflexivity.
 Qed.
 
 (* ---------- one event ---------- *)
@@ -242,9 +349,9 @@ Proof.
   - destruct (w_init w); [unfold cleanup; rewrite fold_try_subs|]; lia.
   - rewrite register_len. lia.
   - rewrite register_len. lia.
-  - pose proof (run_loop_len_aux := I). unfold run_loop.
-    assert (H : forall q w1, length (w_subs (fold_left set_rc q w1)) = length (w_subs w1)).
-    { induction q as [|x q IH]; intros w1; simpl; [reflexivity|]. rewrite IH. apply set_rc_len. }
+  - unfold run_loop.
+    assert (H : forall q w1, length (w_subs (fold_left run_item q w1)) = length (w_subs w1)).
+    { induction q as [|x q IH]; intros w1; cbn [fold_left]; [reflexivity|]. rewrite IH. apply run_item_len. }
     rewrite H. simpl. lia.
 Qed.
 
@@ -267,7 +374,7 @@ Proof.
     + intros q x H. destruct (g_wait w Gw q x H) as [sb [H1 H2]]. exists sb. split; [|exact H2].
       rewrite nth_error_app1 by exact (nth_error_lt _ _ _ H1). exact H1.
     + rewrite map_app. simpl. apply NoDup_app_snoc; [exact (g_pids w Gw)|exact F].
-    + intros x st H. rewrite app_length. pose proof (g_queue w Gw x st H). lia.
+    + intros x H. rewrite app_length. pose proof (g_queue w Gw x H). lia.
     + intros e H. apply (log_ok_mono (length (w_subs w))); [rewrite app_length; lia|exact (g_log w Gw e H)].
     + intros q k H. rewrite map_app. apply in_or_app. destruct (Z.eq_dec p q) as [<-|N]; [right; left; reflexivity|].
       rewrite a_find_set_other in H by exact N. left. exact (g_kern w Gw q k H).
@@ -276,7 +383,7 @@ Proof.
     intros q k H. destruct (Z.eq_dec p q) as [<-|N]; [exact (e p _ K)|].
     rewrite a_find_set_other in H by exact N. exact (e q k H).
   - destruct (w_init w); [apply cleanup_G|]; exact Gw.
-  - apply register_G; [apply set_cb_keeps|exact Gw].
-  - apply register_G; [apply add_fut_keeps|exact Gw].
+  - apply register_G; [apply prep_plain_good|exact Gw].
+  - apply register_G; [apply prep_fut_good|exact Gw].
   - apply run_loop_G. exact Gw.
 Qed.
